@@ -2,6 +2,7 @@ package ischema
 
 import (
 	"fmt"
+	"hash/fnv"
 	"sort"
 
 	"github.com/jsightapi/jsight-schema-core/bytes"
@@ -68,9 +69,23 @@ func (s *ISchema) AddNamedType(name string, typ *ISchema, rootFile *fs.File, beg
 
 // AddUnnamedType Adds an unnamed TYPE to the SCHEMA. Returns a unique name for the added TYPE.
 func (s *ISchema) AddUnnamedType(typ *ISchema, rootFile *fs.File, begin bytes.Index) string {
-	name := fmt.Sprintf("#%p", typ)
+	name := s.unnamedTypeName(rootFile, begin)
 	s.addType(name, typ, rootFile, begin)
 	return name
+}
+
+// unnamedTypeName makes the name of an unnamed type out of where it is written
+// (file name, a digest of the file content, offset) and its number within this
+// schema: unlike an address it is the same in every run, and two schemas can
+// only produce the same name for the same text, i.e. for the same type.
+func (s *ISchema) unnamedTypeName(file *fs.File, begin bytes.Index) string {
+	fileName := ""
+	h := fnv.New32a()
+	if file != nil {
+		fileName = file.Name()
+		_, _ = h.Write(file.Content().Data())
+	}
+	return fmt.Sprintf("#%s:%08x:%d/%d", fileName, h.Sum32(), begin, len(s.types))
 }
 
 func (s *ISchema) addType(name string, schema *ISchema, rootFile *fs.File, begin bytes.Index) {
